@@ -152,8 +152,10 @@ def isEndOfStream(substrate):
 
     else:
         received = substrate.read(1)
-        if received is None:
+        while received is None:
+            # no data at the moment: the answer is not known yet
             yield
+            received = substrate.read(1)
 
         if received:
             substrate.seek(-1, os.SEEK_CUR)
